@@ -33,6 +33,9 @@ pub enum M {
     GenU16,
     GmU8,
     GmU16,
+    /// a method with an `impl Trait` argument (the macro invents the type parameter), two instantiations
+    GiU8,
+    GiU16,
     // explicit-parameter unmock form
     E0,
     // lending (C13)
@@ -81,6 +84,7 @@ pub enum M {
     OwnDeepOpt,
     OwnDeepPoll,
     OwnPollMulti,
+    OwnOptMulti,
     /// std::process::Termination::report as a mocked method (mock-std)
     TermReport,
 }
@@ -131,6 +135,8 @@ pub const ALL_M: &[M] = &[
     M::GenU16,
     M::GmU8,
     M::GmU16,
+    M::GiU8,
+    M::GiU16,
     M::E0,
     M::LendA,
     M::LendB,
@@ -167,6 +173,7 @@ pub const ALL_M: &[M] = &[
     M::OwnDeepOpt,
     M::OwnDeepPoll,
     M::OwnPollMulti,
+    M::OwnOptMulti,
     M::TermReport,
 ];
 
@@ -196,6 +203,8 @@ impl M {
             M::GenU16 => ("Gen", "g", false, false, false, Recv::Ref, false),
             M::GmU8 => ("GenM", "gm", false, false, false, Recv::Ref, false),
             M::GmU16 => ("GenM", "gm", false, false, false, Recv::Ref, false),
+            M::GiU8 => ("GenI", "gi", false, false, false, Recv::Ref, false),
+            M::GiU16 => ("GenI", "gi", false, false, false, Recv::Ref, false),
             M::E0 => ("Expl", "e0", true, false, true, Recv::Ref, false),
             M::LendA => ("Lend", "lend_a", false, false, false, Recv::Ref, false),
             M::LendB => ("Lend", "lend_b", false, false, false, Recv::Ref, false),
@@ -232,6 +241,7 @@ impl M {
             M::OwnDeepOpt => ("Own", "own_deep_opt", false, false, false, Recv::Ref, false),
             M::OwnDeepPoll => ("Own", "own_deep_poll", false, false, false, Recv::Ref, false),
             M::OwnPollMulti => ("Own", "own_poll_multi", false, false, false, Recv::Ref, false),
+            M::OwnOptMulti => ("Own", "own_opt_multi", false, false, false, Recv::Ref, false),
             M::TermReport => ("Termination", "report", false, false, false, Recv::Val, false),
         };
         MInfo {
@@ -409,6 +419,8 @@ pub enum Special {
     OwnDeepPoll { id: u32 },
     /// each_call(_).returns(Poll::Ready(Err(TrackedC))) with a multi-use quantifier
     OwnPollMulti { quant: Quant, id: u32 },
+    /// each_call(_).returns(Some(Err(TrackedC))) with a multi-use quantifier (Deep Option layer)
+    OwnOptMulti { quant: Quant, id: u32 },
     /// TerminationMock::report.each_call(matching!()).returns(SUCCESS / FAILURE): report() hands out
     /// the mocked code; the instance is verified when it is dropped at the end of report()
     MockedReport { success: bool },
@@ -424,6 +436,10 @@ pub enum Fault {
     ClonePanic,
     /// Debug of the argument panics (reached only while the mock renders an error)
     DebugPanic,
+    /// not a fault of the call itself: the call is made by a destructor that runs while its thread
+    /// unwinds from a user panic (the destructor contains whatever the call raises). The mock must
+    /// treat it like any other call.
+    WhileUnwinding,
 }
 
 #[derive(Serialize, Deserialize, Clone, Debug, PartialEq, Eq, Hash)]
@@ -469,6 +485,12 @@ pub enum Op {
     /// user-level panic between calls (assert failure in a test body)
     UserPanic {
         catch: bool,
+    },
+    /// a (caught) user panic whose unwinding runs a fixture destructor that builds a mock of its own,
+    /// optionally clones it, and drops both - all while the thread is unwinding
+    UnwindScratch {
+        unmet: bool,
+        with_clone: bool,
     },
     /// lending world: borrow the instance for a while, take references from it, keep re-reading
     /// all of them after every further step
@@ -569,6 +591,7 @@ pub enum OwnKind {
     /// -> Poll<Result<&u32, Tracked>>, single use
     DeepPoll,
     PollMulti,
+    OptMulti,
 }
 
 #[derive(Serialize, Deserialize, Clone, Copy, Debug, PartialEq, Eq, Hash)]
